@@ -481,6 +481,46 @@ fn run_program(p: &Program, prop_c17: bool) -> ExecResult {
                 }
             }
         }
+        // third frame: the exclusive paths on top of what the shared paths left behind — a batch
+        // naming one entity twice fails at the repetition; a stillborn entity (builder dropped),
+        // delete_all, new creations through shared access, maintain: exactly the new ones live
+        if sf.is_empty() {
+            let r = crate::util::catch(|| -> Vec<String> {
+                let mut out = vec![];
+                let alive: Vec<Entity> = (&*w.entities()).join().collect();
+                if alive.len() >= 2 {
+                    let (a, b) = (alive[0], alive[1]);
+                    match w.delete_entities(&[a, b, a]) {
+                        Err((wg, 2)) if wg.entity == a => {}
+                        other => out.push(format!("third-frame: delete_entities(&[a, b, a]) returned {:?}, expected an error at position 2", other.map_err(|(wg, i)| (wg.entity, i)))),
+                    }
+                    if w.entities().is_alive(a) || w.entities().is_alive(b) {
+                        out.push("third-frame: entities named before the repeated handle are still alive".into());
+                    }
+                }
+                {
+                    let ents = w.entities();
+                    let _stillborn = ents.build_entity();
+                }
+                w.delete_all();
+                let fresh: Vec<Entity> = {
+                    let ents = w.entities();
+                    (0..n_slots + 2).map(|_| ents.create()).collect()
+                };
+                w.maintain();
+                let mut want = fresh.clone();
+                want.sort_by_key(|e| e.id());
+                let got3: Vec<Entity> = (&*w.entities()).join().collect();
+                if got3 != want {
+                    out.push(format!("lost-request: third frame: after delete_all, {} creations and maintain the alive set is {:?}, expected {:?}", fresh.len(), got3, want));
+                }
+                out
+            });
+            match r {
+                Ok(v) => sf.extend(v),
+                Err(m) => sf.push(format!("panic: third frame panicked: {}", m.lines().next().unwrap_or(""))),
+            }
+        }
         for m in sf {
             fail(m);
         }
